@@ -637,7 +637,58 @@ func (x *c15) finish(cause string) {
 		w.Settle()
 		rec.FP("server-close/first-listener-already-closed")
 	}
+	// every other time permitted peers keep sending while the server closes: the relay loops meet
+	// the already closed listener socket when they pass these datagrams on
+	stopFlood := make(chan struct{})
+	floodDone := make(chan struct{})
+	flooding := h.rng.Intn(2) == 0
+	if flooding {
+		type tgt struct {
+			p     *sim.Peer
+			relay *net.UDPAddr
+		}
+		var tgts []tgt
+		for _, a := range m.Allocs {
+			if a.State() != sim.Live || a.TCP || a.RelayUDP == nil {
+				continue
+			}
+			for _, p := range h.peers {
+				if a.PermState(p.Addr.IP) == sim.Live {
+					tgts = append(tgts, tgt{p, a.RelayUDP})
+				}
+			}
+		}
+		go func() {
+			defer close(floodDone)
+			for i := 0; i < 4000 && len(tgts) > 0; i++ {
+				select {
+				case <-stopFlood:
+					return
+				default:
+				}
+				t := tgts[i%len(tgts)]
+				_, _ = t.p.UDP.WriteTo([]byte("sent-while-the-server-closes"), t.relay)
+				runtime.Gosched()
+			}
+		}()
+		rec.FP("server-close/peers-keep-sending/targets>0=%v", len(tgts) > 0)
+	} else {
+		close(floodDone)
+	}
 	_ = w.Srv.Close()
+	close(stopFlood)
+	<-floodDone
+	if flooding {
+		// (what was relayed of the flood before the sockets went away is not part of any judged step)
+		w.Settle()
+		w.Net.TakeSendLog()
+		for _, c := range h.clients {
+			if c.IsTCP && !c.Closed {
+				c.Collect()
+				c.TakeInbox()
+			}
+		}
+	}
 	x.serverClosed = true
 	w.Sleep(8 * time.Second)
 	for _, c := range h.clients {
